@@ -15,6 +15,12 @@ R23c read/write(_batch) from Issue or Reconnect never reach `raise HardwareLayer
      from Disconnected or Error they never return normally and never touch the decorated hardware.
 R23d last_known_good_reads is written only after a successful decorated read, and every return in a
      masked branch yields last-known-good values (or None when none exists).
+R23e timer origins are fresh: the attribute the Issue -> Reconnect timeout is measured from is assigned
+     the current time on every path of every success_* method, and every successful decorated read /
+     write reaches such a method before returning; the attribute the Reconnect -> Error timeout is
+     measured from is assigned the current time on every path after `state = Reconnect` (directly or
+     in the callback called there). Otherwise "no success within the timeout" is measured from a stale
+     origin and the transition fires early.
 Decides the protocol shape for all fault sequences; the timeout arithmetic itself is not decided.
 """
 from __future__ import annotations
@@ -98,7 +104,8 @@ def run(ctx) -> None:
     prog = ctx.prog
     cls = prog.cls(CLS)
     for r, d in [("R23a", "extracted transition edges == documented edges"), ("R23b", "Connection Status agrees with state at every exit"),
-                 ("R23c", "masking in Issue/Reconnect, raising in Disconnected/Error"), ("R23d", "last-known-good discipline")]:
+                 ("R23c", "masking in Issue/Reconnect, raising in Disconnected/Error"), ("R23d", "last-known-good discipline"),
+                 ("R23e", "timeout origins are refreshed at every success / at the transition")]:
         ctx.rule(r, d)
     # enum members still the five documented ones
     enum = prog.cls("openpectus.engine.hardware_recovery:ErrorRecoveryState")
@@ -275,3 +282,93 @@ def run(ctx) -> None:
         for n in walk_no_nested(fn.node):
             if isinstance(n, ast.Assign) and any(isinstance(t, ast.Subscript) and "last_known_good_reads" in norm(t.value) for t in n.targets):
                 ctx.fail("R23d", fn, n, f"{fn.short}: {norm(n)}", "last_known_good_reads written outside the success path of read/read_batch")
+
+    # ---- R23e
+    from ..util import local_single_defs, expand_local
+    erw = cls.find_method("error_read_write")
+    if erw is None:
+        raise AnchorError("error_read_write missing")
+    ctx.analysed(erw)
+    origins = {}    # timeout config attribute -> origin attribute
+    for n in walk_no_nested(erw.node):
+        if isinstance(n, ast.Compare) and len(n.ops) == 1:
+            txt = norm(n)
+            for cfgattr in ("reconnect_timeout_seconds", "error_timeout_seconds"):
+                if cfgattr in txt:
+                    attrs = [x.attr for x in ast.walk(n) if isinstance(x, ast.Attribute) and isinstance(x.value, ast.Name)
+                             and x.value.id == "self" and x.attr.startswith("last_")]
+                    if len(attrs) == 1:
+                        origins[cfgattr] = attrs[0]
+    if set(origins) != {"reconnect_timeout_seconds", "error_timeout_seconds"}:
+        raise AnchorError(f"error_read_write: timeout comparisons not understood ({origins})")
+
+    def is_now(e, f) -> bool:
+        e = expand_local(e, local_single_defs(f))
+        return isinstance(e, ast.Call) and norm(e.func) in ("time.time", "time.monotonic")
+
+    def assigns_now(f, attr):
+        def pred(x):
+            return x.kind == "stmt" and isinstance(x.ast, ast.Assign) and any(
+                isinstance(t, ast.Attribute) and t.attr == attr and norm(t.value) == "self" for t in x.ast.targets) and is_now(x.ast.value, f)
+        return pred
+
+    def refreshes_on_all_paths(f, attr) -> bool:
+        g = cfg_of(f)
+        return any(assigns_now(f, attr)(x) for x in g.nodes) and g.path_to_exit_avoiding(None, assigns_now(f, attr)) is None
+
+    t1 = origins["reconnect_timeout_seconds"]
+    writers = [m for m in cls.methods.values() if m.name != "__init__" and any(assigns_now(m, t1)(x) for x in cfg_of(m).nodes)]
+    if not writers:
+        raise AnchorError(f"no method refreshes {t1}")
+    good = set()
+    for m in writers:
+        ctx.analysed(m)
+        inst = f"{m.name}: self.{t1} = <now> on every path"
+        if refreshes_on_all_paths(m, t1):
+            good.add(m.name)
+            ctx.ok("R23e", inst)
+        else:
+            p = cfg_of(m).path_to_exit_avoiding(None, assigns_now(m, t1))
+            ctx.fail("R23e", m, m.node, inst, f"a path through {m.name} returns without refreshing {t1}: the Issue -> Reconnect timeout is then "
+                     "measured from an older success and fires although a read/write has just succeeded", p)
+    for name in RW:
+        m = cls.find_method(name)
+        g = cfg_of(m)
+        for d in [n for n in g.nodes if any(norm(c.func) == f"self.decorated.{name}" for c in n.calls())]:
+            inst = f"{name}: a successful {d.text()[:50]} refreshes {t1} before returning"
+            p = g.path_to_exit_avoiding([(d.id, "")], lambda x: any(call_attr(c) in good and norm(c.func).startswith("self.") for c in x.calls())
+                                        or assigns_now(m, t1)(x))
+            if p is None:
+                ctx.ok("R23e", inst)
+            else:
+                ctx.fail("R23e", m, d.ast, inst, f"a successful hardware access can return without refreshing {t1}", p)
+    t2 = origins["error_timeout_seconds"]
+    n_t = 0
+    for m in cls.methods.values():
+        g = cfg_of(m)
+        for n in g.nodes:
+            if n.kind == "stmt" and isinstance(n.ast, ast.Assign) and norm(n.ast.targets[0]) == "self.state" \
+                    and norm(n.ast.value) == "ErrorRecoveryState.Reconnect":
+                n_t += 1
+                ctx.analysed(m)
+
+                def refresh(x, m=m):
+                    if assigns_now(m, t2)(x):
+                        return True
+                    for c in x.calls():
+                        if isinstance(c.func, ast.Attribute) and norm(c.func.value) == "self":
+                            t = cls.find_method(c.func.attr)
+                            if t is not None and refreshes_on_all_paths(t, t2):
+                                return True
+                    return False
+                inst = f"{m.name}: {n.text()} is followed by self.{t2} = <now> on every path"
+                p = g.path_to_exit_avoiding([n.id], lambda x, n=n: x.id != n.id and refresh(x))
+                if p is None:
+                    ctx.ok("R23e", inst)
+                else:
+                    ctx.fail("R23e", m, n.ast, inst, f"state becomes Reconnect without restarting {t2}: the Reconnect -> Error timeout is measured "
+                             "from an earlier outage", p)
+    if n_t < 1:
+        ctx.fail("R23e", erw, erw.node, f"transition to Reconnect restarts {t2}", "no statement sets state to Reconnect (see R23a): "
+                 "the origin of the Reconnect -> Error timeout is never restarted")
+    ctx.floor("R23e", 6)
